@@ -12,6 +12,8 @@ import (
 	"strings"
 	"syscall"
 	"unsafe"
+
+	flags "github.com/jessevdk/go-flags"
 )
 
 type HelpScn struct {
@@ -21,7 +23,7 @@ type HelpScn struct {
 	POpts  []string `json:"popts"`
 	Words  []S      `json:"words"` // command words selecting the active chain
 	Width  int      `json:"width"`
-	Kind   string   `json:"kind"` // help | errhelp | man
+	Kind   string   `json:"kind"` // help | errhelp | man | rehelp (help written a second time on the same parser after the declaration and the terminal changed)
 	Repeat int      `json:"repeat"`
 	Tags   []string `json:"tags"`
 	Obs    *HelpObs `json:"obs,omitempty"`
@@ -125,6 +127,32 @@ func runHelpOnce(t *Tree, sc *HelpScn) *HelpObs {
 			b.p.WriteManPage(&buf)
 			os.Unsetenv("SOURCE_DATE_EPOCH")
 			text = buf.String()
+		case "rehelp":
+			// the help text is a function of the parser as it is NOW: written once with every second option hidden and
+			// another terminal width, then written again after the options are visible again and the width is the scenario's
+			b.p.ParseArgs(words)
+			var flipped []*flags.Option
+			k := 0
+			eachOption(b.p.Command, func(o *flags.Option) {
+				if k%2 == 0 && !o.Hidden {
+					o.Hidden = true
+					flipped = append(flipped, o)
+				}
+				k++
+			})
+			setWidth(sc.Width/2 + 7)
+			var first bytes.Buffer
+			func() {
+				defer func() { recover() }() // a crash of the first call is the plain kind's finding
+				b.p.WriteHelp(&first)
+			}()
+			for _, o := range flipped {
+				o.Hidden = false
+			}
+			setWidth(sc.Width)
+			var buf bytes.Buffer
+			b.p.WriteHelp(&buf)
+			text = buf.String()
 		default:
 			b.p.ParseArgs(words)
 			var buf bytes.Buffer
@@ -148,6 +176,22 @@ func runHelpOnce(t *Tree, sc *HelpScn) *HelpObs {
 		c = c.Active
 	}
 	return obs
+}
+
+func eachOption(c *flags.Command, f func(o *flags.Option)) {
+	var walk func(g *flags.Group)
+	walk = func(g *flags.Group) {
+		for _, o := range g.Options() {
+			f(o)
+		}
+		for _, sg := range g.Groups() {
+			walk(sg)
+		}
+	}
+	walk(c.Group)
+	for _, sc := range c.Commands() {
+		eachOption(sc, f)
+	}
 }
 
 func init() {
@@ -202,6 +246,14 @@ func helpDesc(r *rand.Rand, mk string) string {
 	}
 	if chance(r, 0.1) {
 		ws = append(ws, strings.Repeat("w", 15+r.Intn(60)))
+	}
+	if chance(r, 0.12) { // a long word without blanks whose characters have one, two, three and four bytes (forced breaks fall inside it)
+		n := 8 + r.Intn(70)
+		var sb strings.Builder
+		for i := 0; i < n; i++ {
+			sb.WriteString(pick(r, []string{"w", "w", "a", "é", "世", "ж", "😀", "界"}))
+		}
+		ws = append(ws, sb.String())
 	}
 	s := strings.Join(ws, " ")
 	if chance(r, 0.08) && n > 2 {
@@ -274,14 +326,25 @@ func genHelp(r *rand.Rand, t *Tree, id int) *HelpScn {
 	if chance(r, 0.7) {
 		sc.POpts = append(sc.POpts, "HelpFlag")
 	}
-	sc.Kind = pick(r, []string{"help", "help", "help", "errhelp", "man"})
+	sc.Kind = pick(r, []string{"help", "help", "help", "errhelp", "man", "rehelp"})
 	if sc.Kind == "errhelp" {
 		sc.POpts = []string{"HelpFlag"}
 	}
 	// a chain of command words (names or aliases), possibly none; only commands without pending positionals can be descended into
 	c := t.Root
 	var words []string
-	for len(c.Cmds) > 0 && len(c.Args) == 0 && chance(r, 0.7) {
+	for len(c.Cmds) > 0 && chance(r, 0.7) {
+		// positionals of a command on the way are filled first (one word each); behind a slice positional no command is reachable
+		rest := false
+		for _, a := range c.Args {
+			rest = rest || a.Slice
+		}
+		if rest {
+			break
+		}
+		for range c.Args {
+			words = append(words, pick(r, []string{"1", "1", "7", "w"}))
+		}
 		sub := pick(r, c.Cmds)
 		name := sub.Name
 		if len(sub.Aliases) > 0 && chance(r, 0.3) {
